@@ -105,6 +105,21 @@ func c01Entries() []c01Entry {
 		}, true},
 		{"CloneTo", func(in []byte, r *gen.Rand) (*stun.Message, []byte, error) {
 			src := &stun.Message{Raw: in}
+			if r.Chance(1, 3) {
+				// the source was decoded from other bytes of the same length before its buffer was rewritten in place
+				// (same header, edited body): CloneTo must judge the bytes that are there now
+				prev := append([]byte(nil), in...)
+				if len(prev) > 24 {
+					for k := 20; k < len(prev); k++ {
+						prev[k] = 0
+					}
+					tmp := &stun.Message{Raw: prev}
+					if tmp.Decode() == nil || r.Bool() {
+						src = tmp
+						copy(src.Raw, in)
+					}
+				}
+			}
 			dst := usedMessage(r)
 			err := src.CloneTo(dst)
 
@@ -176,8 +191,7 @@ func c01(c *core.Ctx) {
 		n = c.N(8000, 100000)
 	}
 	var ms0, ms1 runtime.MemStats
-	c.Section("inputs", n, func(i int64, r *gen.Rand) {
-		in := r.Hostile(seeds(), 65555)
+	judge := func(i int64, r *gen.Rand, in []byte, modes []int) {
 		rm, why := ref.Parse(in)
 		class := "rej:" + why
 		if rm != nil {
@@ -188,7 +202,7 @@ func c01(c *core.Ctx) {
 		if c.WantSample() && rm != nil && len(rm.TLVs) > 1 && len(in) < 120 {
 			c.Sample(map[string]interface{}{"input_hex": core.Hex(in), "reference": class})
 		}
-		for mode := 0; mode < 2; mode++ {
+		for _, mode := range modes {
 			for ei, e := range entries {
 				placed := place(in, mode, r.Intn(4), 1+r.Intn(64), r)
 				orig := append([]byte(nil), placed...)
@@ -293,6 +307,27 @@ func c01(c *core.Ctx) {
 				}
 			}
 		}
+	}
+	c.Section("inputs", n, func(i int64, r *gen.Rand) {
+		judge(i, r, r.Hostile(seeds(), 65555), []int{0, 1})
+	})
+	// every value of the first two bytes, with an intact and with a damaged cookie: no type value is special
+	tf := int64(65536)
+	if c.Config == "race" {
+		tf = 4096
+	}
+	c.Section("typefield", tf, func(i int64, r *gen.Rand) {
+		spec := r.Spec(2, 12)
+		in := spec.Wire()
+		v := uint16(i)
+		if tf < 65536 {
+			v = uint16(r.U64())
+		}
+		in[0], in[1] = byte(v>>8), byte(v)
+		if r.Bool() {
+			in[4+r.Intn(4)] ^= 1 << uint(r.Intn(8))
+		}
+		judge(i, r, in, []int{r.Intn(2)})
 	})
 }
 
